@@ -92,10 +92,12 @@ def make_shell_classes(api):
 class Mole:
     """Stub of pyscf.gto.mole.Mole: exactly the three attributes from_pyscf reads."""
 
-    def __init__(self, atoms, basis, cart, coord_form="list"):
+    def __init__(self, atoms, basis, cart, coord_form="list", row_form="list", kappa=False):
         conv = {"list": list, "tuple": tuple, "array": lambda x: np.array(x, dtype=float)}[coord_form]
+        rconv = {"list": list, "tuple": tuple}[row_form]
         self._atom = [(sym, conv(xyz)) for sym, xyz in atoms]
-        self._basis = {sym: [[sh[0]] + [list(row) for row in sh[1:]] for sh in shells] for sym, shells in basis.items()}
+        head = (lambda l: [l, 0]) if kappa else (lambda l: [l])  # pyscf's optional kappa entry (not supported)
+        self._basis = {sym: [head(sh[0]) + [rconv(row) for row in sh[1:]] for sh in shells] for sym, shells in basis.items()}
         self.cart = bool(cart)
 
 
@@ -154,6 +156,7 @@ class World:
         self.file_specs = {}
         self.bdicts = []
         self.moles = []
+        self.instances = []  # retained integral / evaluation class instances
         self.results = []  # history side only
         self.scribbled = []  # results the user wrote to since the last check
         self.probes = {}
@@ -165,7 +168,7 @@ class World:
     def all_objects(self):
         objs = [e.obj for e in self.arrays] + [e.obj for e in self.shells] + [e.obj for e in self.containers]
         objs += [e.obj for e in self.lists] + [e.obj for e in self.bdicts] + [e.obj for e in self.moles]
-        return objs
+        return objs  # retained class instances are the library's own objects: not snapshotted
 
     def digest(self):
         return (snap(tuple(self.all_objects())), self.fs.snapshot())
@@ -576,7 +579,7 @@ def r_make_contr(w, op):
 
 
 def r_new_mole(w, op):
-    m = Mole(op["atoms"], op["basis"], op["cart"], op.get("coord_form", "list"))
+    m = Mole(op["atoms"], op["basis"], op["cart"], op.get("coord_form", "list"), op.get("row_form", "list"))
 
     def post(_):
         w.moles.append(Entry(m))
@@ -595,7 +598,15 @@ def r_from_pyscf(w, op):
     valid = True
     inv = op.get("invalid")
     if inv and not op["keep"]:
-        arg = [None, "Mole", 3.5][inv["kind"] % 3]
+        k = inv["kind"] % 5
+        if k == 3:  # a molecule in pyscf's [l, kappa, [exp, c...], ...] layout, which gbasis does not support
+            arg = Mole([(s_, list(np.asarray(x_, dtype=float))) for s_, x_ in m._atom],
+                       {s_: [[sh[0]] + [list(r) for r in sh[1:]] for sh in shs] for s_, shs in m._basis.items()},
+                       m.cart, kappa=True)
+        elif k == 4:  # a molecule without any atom
+            arg = Mole([], {}, m.cart)
+        else:
+            arg = [None, "Mole", 3.5][k]
         valid = False
     exp_rows = []
     for sym, xyz in m._atom:
@@ -672,6 +683,53 @@ def r_from_iodata(w, op):
     # place the molecule itself has changed and a world that only mirrors the *original* molecule is no reference
     b.pristine_ok = snap(m) == ment.meta.get("snap0")
     return b
+
+
+INSTANCE_CLASSES = ["Overlap", "KineticEnergyIntegral", "MomentumIntegral", "Moment", "Eval", "EvalDeriv",
+                    "PointChargeIntegral", "AngularMomentumIntegral", "OverlapAsymmetric"]
+
+
+def r_new_instance(w, op):
+    name = INSTANCE_CLASSES[op["cls"] % len(INSTANCE_CLASSES)]
+    cls = w.api.cls[name]
+    basis = w.basis(op["d"], True, max_nbf=30, max_l=3)
+    ctor = [basis, basis] if name == "OverlapAsymmetric" else [basis]
+
+    def post(inst):
+        w.instances.append(Entry(inst, meta={"cls": name, "basis": basis}))
+
+    return Bound("W", name + ".__init__", call=lambda: cls(*ctor), post=post, args=ctor)
+
+
+def r_inst_call(w, op):
+    if not w.instances:
+        return Bound("query", "retained instance", skip="no retained instance")
+    e = w.instances[op["id"] % len(w.instances)]
+    name, basis, inst = e.meta["cls"], e.meta["basis"], e.obj
+    rs = random.Random(op["seed"])
+    d = op["d"]
+    P = op["params"]
+    p_reuse = op["reuse"]
+
+    def reuse():
+        return rs.random() < p_reuse
+
+    def pts(idx):
+        return w.points(d[idx], reuse(), rs, max_n=4)
+
+    def charges_for(n, idx):
+        return w.array("charges", (n,), d[idx], reuse(), lambda: _mk_charges(rs, n, P["charges"]))
+
+    def int_array(role, vals, idx):
+        want = np.array(vals, dtype=int)
+        w.arrays.append(Entry(want, role))
+        return want
+
+    def float_vec(role, vals, idx):
+        return w.array(role, (len(vals),), d[idx], reuse(), lambda: np.array(vals, dtype=float))
+
+    return _bind_cls_array(w, op, basis, w.nbf(basis), rs, reuse, pts, charges_for, int_array, float_vec, None,
+                           instance=inst, name=name)
 
 
 def r_update(w, op):
@@ -1199,10 +1257,11 @@ def _bind_cls_contraction(w, op, basis, rs, reuse, pts, charges_for, int_array, 
     return _finish_query(w, op, name + ".construct_array_contraction", cls.construct_array_contraction, args, kwargs)
 
 
-def _bind_cls_array(w, op, basis, nbf, rs, reuse, pts, charges_for, int_array, float_vec, transform_for):
+def _bind_cls_array(w, op, basis, nbf, rs, reuse, pts, charges_for, int_array, float_vec, transform_for,
+                    instance=None, name=None):
     P = op["params"]
     d = op["d"]
-    name = P["cls"]
+    name = name or P["cls"]
     cls = w.api.cls[name]
     method = P["method"]
     extra = []
@@ -1240,10 +1299,10 @@ def _bind_cls_array(w, op, basis, nbf, rs, reuse, pts, charges_for, int_array, f
                       ["coord_type_one", list(cts), "ct"], ["coord_type_two", list(cts), "ct"]]
         else:
             margs += [["transform", t, "transform"], ["coord_type", list(cts), "ct"]]
-    allv = args + margs + extra
+    allv = (margs + extra) if instance is not None else (args + margs + extra)
     valid = True
     inv = op.get("invalid")
-    if inv:
+    if inv and allv:
         t = allv[inv["arg"] % len(allv)]
         t[1] = corrupt(t[1], t[2], inv["kind"])
         valid = False
@@ -1251,11 +1310,21 @@ def _bind_cls_array(w, op, basis, nbf, rs, reuse, pts, charges_for, int_array, f
     ma = [x[1] for x in margs]
     kw = {x[0]: x[1] for x in extra}
 
-    def call():
+    def fresh_call():
         inst = cls(*ctor)
         return getattr(inst, "construct_array_" + method)(*ma, **kw)
 
-    b = Bound("query", f"{name}.construct_array_{method}", call=call, args=ctor + ma + list(kw.values()))
+    if instance is None:
+        b = Bound("query", f"{name}.construct_array_{method}", call=fresh_call, args=ctor + ma + list(kw.values()))
+    else:
+        # a retained instance: the constructor arguments stay under observation, and the answer must be that
+        # of an instance built now from the same basis (oracle O6)
+        b = Bound("query", f"{name}(retained).construct_array_{method}",
+                  call=lambda: getattr(instance, "construct_array_" + method)(*ma, **kw),
+                  args=ctor + ma + list(kw.values()))
+        if valid:
+            b.twin_call = fresh_call
+        w.probe("call_on_retained_instance")
     b.valid = valid
     return b
 
@@ -1272,6 +1341,8 @@ RESOLVERS = {
     "from_pyscf": r_from_pyscf,
     "new_iodata": r_new_iodata,
     "from_iodata": r_from_iodata,
+    "new_instance": r_new_instance,
+    "inst_call": r_inst_call,
     "update": r_update,
     "scribble": r_scribble,
     "query": r_query,
